@@ -3,6 +3,9 @@ package main
 import (
 	"context"
 	stderrors "errors"
+	"math/rand"
+	"strconv"
+	"sync"
 	"sync/atomic"
 	"time"
 
@@ -26,6 +29,9 @@ func driveKvWaitPrompt(opt *Options) error {
 		return err
 	}
 	defer tw.Close()
+	if opt.Extra["only"] == "brief" {
+		return driveKvWaitBrief(tw, opt.Seed)
+	}
 	idle := 2200 * time.Millisecond
 	type sc struct{ change string }
 	for _, s := range []sc{{"put"}, {"delete"}, {"putprev"}} {
@@ -88,7 +94,63 @@ func driveKvWaitPrompt(opt *Options) error {
 			break
 		}
 	}
-	return driveKvWaitDeadline(tw)
+	if err := driveKvWaitDeadline(tw); err != nil {
+		return err
+	}
+	return driveKvWaitBrief(tw, opt.Seed)
+}
+
+// Records that live for 0-30 MICROseconds with a waiter arriving in the last instants of their life: the record may
+// run out between the waiter's look at it and whatever the waiter arms to be woken.  Nobody touches the keys
+// afterwards; every waiter must come back with ErrNotExist (one summary line; stalled runs are repeated).
+func driveKvWaitBrief(tw *TraceWriter, seed int64) error {
+	rnd := rand.New(rand.NewSource(seed))
+	for attempt := 0; attempt < 3; attempt++ {
+		st := inmem.New()
+		ctx := context.Background()
+		const n = 3000
+		var hung, wrong int64
+		var wg sync.WaitGroup
+		t0 := time.Now()
+		var maxGap int64
+		for i := 0; i < n; i++ {
+			key := "brief/" + strconv.Itoa(i)
+			exp := time.Now().Add(time.Duration(rnd.Intn(30000)) * time.Nanosecond)
+			rec, err := st.Put(ctx, kvs.Record{Key: key, Value: []byte("v"), ExpiresAt: &exp})
+			if err != nil {
+				return err
+			}
+			wg.Add(1)
+			go func() {
+				defer wg.Done()
+				c, cancel := context.WithTimeout(ctx, 2*time.Second)
+				defer cancel()
+				var werr error
+				callPanics(func() { werr = st.WaitForVersionChange(c, key, rec.Version) })
+				switch {
+				case c.Err() != nil:
+					atomic.AddInt64(&hung, 1)
+				case errClass(werr) != "notexist":
+					atomic.AddInt64(&wrong, 1)
+				}
+			}()
+			if i%64 == 63 {
+				t := time.Now()
+				time.Sleep(200 * time.Microsecond)
+				if g := time.Since(t).Milliseconds(); g > maxGap {
+					maxGap = g
+				}
+			}
+		}
+		wg.Wait()
+		if maxGap > 150 && attempt < 2 {
+			continue // the host stalled: not judged
+		}
+		tw.Emit(map[string]any{"e": "brief", "n": n, "hung": atomic.LoadInt64(&hung), "wrong": atomic.LoadInt64(&wrong),
+			"stall_ms": maxGap, "ms": time.Since(t0).Milliseconds()})
+		break
+	}
+	return nil
 }
 
 // Waiters whose context carries a DEADLINE (not only a cancel function), on both backends:
